@@ -58,6 +58,7 @@ structure TI (s : St) (t : Nat) (th : Thread) : Prop where
   mh : ∀ todo held, th.pc = .mCache todo held → held.Nodup
   mu : ∀ todo, th.pc = .mUnlock todo → todo.Nodup
   js : ∀ a, th.pc = .done a → readKey th.prog ≠ none → th.just = true
+  jr : ∀ p, th.pc = .rCache p ∨ th.pc = .rUnlock p → th.just = true
 
 structure Inv (s : St) : Prop where
   thr : ∀ t th, s.threads[t]? = some th → TI s t th
@@ -142,7 +143,7 @@ theorem TI.frame {s s' : St} {t u : Nat} {th : Thread} (hI : Inv s) (hF : Frame 
     · rcases hk with hk | hk
       · rw [e] at hk; cases hk; exact absurd rfl hut
       · have := hI.ex k t e; rw [this] at hk; simp at hk
-  refine ⟨h.pk, ?_, ?_, ?_, ?_, ?_, h.ml, h.mw, h.mh, h.mu, h.js⟩
+  refine ⟨h.pk, ?_, ?_, ?_, ?_, ?_, h.ml, h.mw, h.mh, h.mu, h.js, h.jr⟩
   · intro k hk
     have hwk := h.wl k hk
     rcases hF.hw k with e | ⟨e, _⟩ | ⟨e, _⟩
